@@ -31,7 +31,7 @@ LEAN_MODULES = {
     "C02": ["TFV.Properties.EA", "TFV.Properties.Src.Engine"],
     "C03": ["TFV.Properties.EA", "TFV.Properties.Src.Engine", "TFV.Properties.Src.Skeleton"],
     "C04": ["TFV.Properties.Rng"],
-    "C05": ["TFV.Properties.EA"],
+    "C05": ["TFV.Properties.EA", "TFV.Properties.Src.Engine"],
     "C06": ["TFV.Properties.BinOps", "TFV.Properties.Runs", "TFV.Properties.Src.BinKernels", "TFV.Properties.Src.BinKernels2"],
     "C07": ["TFV.Properties.DE", "TFV.Properties.Runs", "TFV.Properties.Src.BoundsControl", "TFV.Properties.Src.Binomial"],
     "C08": ["TFV.Properties.Tree", "TFV.Properties.TreeCR", "TFV.Properties.Runs", "TFV.Properties.Src.Levels"],
@@ -52,9 +52,10 @@ LEAN_MODULES = {
 # kernels of /repo that are TRANSLATED into Lean on every run (harness/extract/py2lean.py) and proved equal to the
 # hand-written model by the theorems C*_src_* of TFV/Properties/Src/*.lean
 SRC_KERNELS = {
-    "C01": ["TheFittest_replace", "TheFittest_update"],
-    "C02": ["TheFittest_replace", "TheFittest_update"],
-    "C03": ["TheFittest_replace", "TheFittest_update", "termination_check", "get_remains_calls", "EA_fit"],
+    "C01": ["TheFittest_replace", "TheFittest_update", "termination_check", "get_remains_calls", "EA_get_fitness"],
+    "C02": ["TheFittest_replace", "TheFittest_update", "termination_check", "get_remains_calls", "EA_get_fitness"],
+    "C03": ["TheFittest_replace", "TheFittest_update", "termination_check", "get_remains_calls", "EA_fit", "EA_get_fitness"],
+    "C05": ["TheFittest_replace", "TheFittest_update", "termination_check", "get_remains_calls", "EA_get_fitness"],
     "C06": ["flip_mutation", "binomialGA", "one_point_crossover", "two_point_crossover", "uniform_crossover",
             "uniform_proportional_crossover", "uniform_rank_crossover", "empty_crossover"],
     "C07": ["bounds_control", "binomial"],
